@@ -192,7 +192,14 @@ func dumpStats() {
 		_ = os.WriteFile(filepath.Join(dir, s.HashFile), buf, 0o644)
 		all = append(all, s)
 	}
-	b, _ := json.MarshalIndent(all, "", " ")
+	b, err := json.MarshalIndent(all, "", " ")
+	if err != nil {
+		// a sample that cannot be encoded must not lose the counters
+		for _, s := range all {
+			s.Samples = []sample{{Case: "sample not JSON-encodable: " + err.Error()}}
+		}
+		b, _ = json.MarshalIndent(all, "", " ")
+	}
 	_ = os.WriteFile(filepath.Join(dir, "stats.json"), b, 0o644)
 }
 
